@@ -250,8 +250,84 @@ def own_synchronisation(modules):
     return n
 
 
+# ---------------------------------------------------------------------------------------------------------------------
+# Visibility reduction.  A thread switch can only matter between two accesses to state that another thread can reach; a line
+# that touches nothing but immutable locals commutes with everything the other threads do, so preempting right before it is
+# equivalent to preempting right before the next line that does touch shared state.  `line_visible(frame)` is a conservative
+# classification of the line a frame is about to execute:
+#   * it stores / deletes a global, reads or writes any attribute, subscript, slice, closure cell or class-body name, imports,
+#     or iterates (an iterator may run over a shared container held through a local alias), or
+#   * it loads a global (or builtin) whose current value is not immutable-or-code, or
+#   * it uses a local whose current value is not immutable.
+# A callee's first line is additionally a point when the line that called it is visible (so that two accesses made by one
+# source line are separated by a point whenever a call lies between them).  Used only where it is switched on (`visible=True`):
+# the deep 2-preemption pass of vf/concur.py; every other exploration keeps every line.
+import builtins as _bi
+import dis as _dis
+import types as _types
+
+_VIS_STATIC = {"STORE_GLOBAL", "DELETE_GLOBAL", "LOAD_ATTR", "STORE_ATTR", "DELETE_ATTR", "BINARY_SUBSCR", "STORE_SUBSCR", "DELETE_SUBSCR",
+               "BINARY_SLICE", "STORE_SLICE", "LOAD_DEREF", "STORE_DEREF", "DELETE_DEREF", "LOAD_CLOSURE", "LOAD_NAME", "STORE_NAME",
+               "DELETE_NAME", "IMPORT_NAME", "IMPORT_FROM", "GET_ITER", "FOR_ITER", "LOAD_SUPER_ATTR", "LOAD_METHOD", "YIELD_VALUE",
+               "SEND", "GET_AWAITABLE", "BEFORE_WITH", "LOAD_CLASSDEREF", "LOAD_FROM_DICT_OR_DEREF", "LOAD_FROM_DICT_OR_GLOBALS",
+               "LOAD_LOCALS", "SETUP_ANNOTATIONS", "DICT_UPDATE", "DICT_MERGE", "LIST_EXTEND", "SET_UPDATE", "UNPACK_EX",
+               "UNPACK_SEQUENCE", "CALL_FUNCTION_EX", "CALL_INTRINSIC_1", "CALL_INTRINSIC_2", "RAISE_VARARGS", "RERAISE"}
+_LINEMAP = {}
+_IMMUT = (int, float, complex, bool, str, bytes, type(None), range, frozenset, _types.FunctionType, _types.BuiltinFunctionType,
+          type, _types.ModuleType, _types.MethodDescriptorType, _types.WrapperDescriptorType, type(Ellipsis), type(NotImplemented))
+
+
+def _immutable(v, depth=3):
+    if isinstance(v, _IMMUT):
+        return True
+    if isinstance(v, tuple) and depth:
+        return all(_immutable(x, depth - 1) for x in v)
+    return False
+
+
+def _linemap(code):
+    m = _LINEMAP.get(code)
+    if m is None:
+        m = {}
+        cur = None
+        for ins in _dis.get_instructions(code):
+            if ins.starts_line is not None:
+                cur = ins.starts_line
+            ent = m.setdefault(cur, [False, set(), set()])
+            if ins.opname in _VIS_STATIC:
+                ent[0] = True
+            elif ins.opname in ("LOAD_GLOBAL",):
+                ent[1].add(ins.argval)
+            elif ins.opname in ("LOAD_FAST", "LOAD_FAST_CHECK", "LOAD_FAST_AND_CLEAR"):
+                ent[2].add(ins.argval)
+        _LINEMAP[code] = m
+    return m
+
+
+def line_visible(frame):
+    ent = _linemap(frame.f_code).get(frame.f_lineno)
+    if ent is None or ent[0]:
+        return True
+    g = frame.f_globals
+    for name in ent[1]:
+        v = g.get(name, _MISSING)
+        if v is _MISSING:
+            v = getattr(_bi, name, _MISSING)
+        if v is _MISSING or not _immutable(v):
+            return True
+    if ent[2]:
+        loc = frame.f_locals
+        for name in ent[2]:
+            if name in loc and not _immutable(loc[name]):
+                return True
+    return False
+
+
+_MISSING = object()
+
+
 class Sched:
-    def __init__(self, ctx, targets, want, state_fn=None, horizon=20000, opcodes=None):
+    def __init__(self, ctx, targets, want, state_fn=None, horizon=20000, opcodes=None, visible=False):
         """targets: list of callables (one per thread); want(code)->bool selects traced frames;
         state_fn(sched)->hashable gives the global part of the state key; opcodes(code)->bool enables
         opcode-level points in a frame."""
@@ -262,6 +338,8 @@ class Sched:
         self.state_fn = state_fn
         self.horizon = horizon
         self.opcodes = opcodes
+        self.visible = visible
+        self.skipped = 0
         self.sems = [threading.Semaphore(0) for _ in targets]
         self.done = threading.Event()
         self.finished = set()
@@ -310,6 +388,31 @@ class Sched:
             if event == "line" or event == "opcode":
                 self.point(tid, frame)
             return local
+
+        if self.visible:
+            first = set()          # frames whose first line is a point because the calling line is visible
+
+            def local(frame, event, arg):      # noqa: F811
+                if event == "line":
+                    if id(frame) in first:
+                        first.discard(id(frame))
+                        self.point(tid, frame)
+                    elif line_visible(frame):
+                        self.point(tid, frame)
+                    else:
+                        self.skipped += 1
+                elif event == "return":
+                    first.discard(id(frame))
+                return local
+
+            def glob(frame, event, arg):
+                if event == "call" and want(frame.f_code):
+                    back = frame.f_back
+                    if back is None or not want(back.f_code) or line_visible(back):
+                        first.add(id(frame))
+                    return local
+                return None
+            return glob
 
         def glob(frame, event, arg):
             if event == "call" and want(frame.f_code):
